@@ -1,6 +1,6 @@
 use ntex_bytes::{ByteString, Bytes};
 
-use crate::{error, payload::Payload, v5::codec, v5::control::Pkt};
+use crate::{error, payload::Payload, types::QoS, v5::codec, v5::control::Pkt};
 
 pub use crate::v5::control::{Disconnect, Ping, ProtocolMessageAck, PublishRelease};
 
@@ -45,6 +45,15 @@ impl ProtocolMessage {
             ProtocolMessage::Disconnect(msg) => msg.ack(),
             ProtocolMessage::Ping(msg) => msg.ack(),
         }
+    }
+}
+
+/// QoS 1 is answered with PUBACK, QoS 2 with PUBREC
+fn ack_packet(qos: QoS, ack: codec::PublishAck) -> codec::Packet {
+    if qos == QoS::ExactlyOnce {
+        codec::Packet::PublishReceived(ack)
+    } else {
+        codec::Packet::PublishAck(ack)
     }
 }
 
@@ -95,9 +104,10 @@ impl Publish {
 
     #[inline]
     pub fn ack(self, reason_code: codec::PublishAckReason) -> ProtocolMessageAck {
+        let qos = self.0.qos;
         ProtocolMessageAck {
             packet: self.0.packet_id.map_or(Pkt::None, |packet_id| {
-                Pkt::Packet(codec::Packet::PublishAck(codec::PublishAck {
+                Pkt::Packet(ack_packet(qos, codec::PublishAck {
                     packet_id,
                     reason_code,
                     properties: codec::UserProperties::new(),
@@ -115,9 +125,10 @@ impl Publish {
         properties: codec::UserProperties,
         reason_string: Option<ByteString>,
     ) -> ProtocolMessageAck {
+        let qos = self.0.qos;
         ProtocolMessageAck {
             packet: self.0.packet_id.map_or(Pkt::None, |packet_id| {
-                Pkt::Packet(codec::Packet::PublishAck(codec::PublishAck {
+                Pkt::Packet(ack_packet(qos, codec::PublishAck {
                     packet_id,
                     reason_code,
                     properties,
@@ -132,10 +143,11 @@ impl Publish {
         self,
         reason_code: codec::PublishAckReason,
     ) -> (ProtocolMessageAck, codec::Publish) {
+        let qos = self.0.qos;
         (
             ProtocolMessageAck {
                 packet: self.0.packet_id.map_or(Pkt::None, |packet_id| {
-                    Pkt::Packet(codec::Packet::PublishAck(codec::PublishAck {
+                    Pkt::Packet(ack_packet(qos, codec::PublishAck {
                         packet_id,
                         reason_code,
                         properties: codec::UserProperties::new(),
